@@ -308,3 +308,27 @@ def seq_with_ca(cubes, ca, key, **kw):
         except (ValueError, IndexError, TypeError):
             pass
     return NDCubeSequence(cubes, common_axis=ca, **kw)
+
+
+def poke(obj, key=""):
+    """Ask an object about itself (read-only public properties) before it is operated on, in every second case (by
+    key): what it answers later, and what objects derived from it answer, must not depend on having been asked."""
+    import zlib
+    if zlib.crc32(("poke" + str(key)).encode()) % 2:
+        return obj
+    probes = ["shape", "wcs", "combined_wcs", "array_axis_physical_types", "cube_like_shape", "aligned_dimensions",
+              "aligned_axis_physical_types", "quantity"]
+    for name in probes:
+        try:
+            getattr(obj, name)
+        except Exception:  # noqa
+            pass
+    for f in (lambda: str(obj), lambda: obj.extra_coords.mapping, lambda: obj.extra_coords.wcs,
+              lambda: obj.extra_coords.keys(), lambda: dict(obj.global_coords.physical_types),
+              lambda: list(obj.global_coords.keys()), lambda: obj.axis_world_coords_values(),
+              lambda: obj.extra_coords.dropped_world_dimensions):
+        try:
+            f()
+        except Exception:  # noqa
+            pass
+    return obj
